@@ -303,17 +303,19 @@ func (tb *treeBuilder) commonSnapshot(snapshots []string) (snapshot string, err 
 	// 6. sn 2 is the only snapshot left, it's the common snapshot
 	for {
 		slices.SortFunc(current, func(a, b StorageChange) int {
-			if a.SnapshotId < b.SnapshotId {
+			if a.Id < b.Id {
 				return -1
 			}
-			if a.SnapshotId > b.SnapshotId {
+			if a.Id > b.Id {
 				return 1
 			}
 			return 0
 		})
-		// Remove duplicated snapshots. Duplicated snapshots mean that multiple branches converged to a single branch
+		// Remove duplicated snapshots. Duplicated snapshots mean that multiple branches converged to a single branch.
+		// The comparison must be by id: two different snapshots with the same parent snapshot have not converged yet,
+		// their common snapshot is the parent, not one of them.
 		current = slice.DiscardDuplicatesSortedFunc(current, func(a, b StorageChange) bool {
-			return a.SnapshotId == b.SnapshotId
+			return a.Id == b.Id
 		})
 		// if there is only one snapshot left - return it
 		if len(current) == 1 {
